@@ -391,12 +391,21 @@ def main(check, argv=None):
 
     if args.digests:
         n = args.runs or 50
-        for idx in range(n):
+        # VERIF_DIGEST_ORDER=reverse runs the same indices backwards (printed
+        # in index order): a run's event log must not depend on what the
+        # process ran before it
+        order = list(range(n))
+        if os.environ.get('VERIF_DIGEST_ORDER') == 'reverse':
+            order.reverse()
+        lines = {}
+        for idx in order:
             run_seed = h64(args.seed, check.PROP, idx)
             srng = random.Random(h64(run_seed, 'scenario'))
             scenario = check.gen(srng, args.tier, idx)
             res = run_one(check, scenario, h64(run_seed, 'schedule'))
-            print(idx, res.get('digest'), sorted(_sigs(res)))
+            lines[idx] = (res.get('digest'), sorted(_sigs(res)))
+        for idx in sorted(lines):
+            print(idx, *lines[idx])
         return 0
 
     tier = args.tier
